@@ -55,7 +55,9 @@ var SshKeywords = []string{
 var (
 	PoolUsers = []string{"root", "core", "auditomalditotesting", "a", "user.name", "first_last", "user@example.com",
 		"web-admin", "machine$", "üser", "用户", "u1234", "_svc", "A.B-c_d@e$", "007", "n" + strings.Repeat("x", 31), "Ωmega-1",
-		"u" + strings.Repeat("0123456789", 9) + "123456789"} // the last one: sshd's %.100s limit
+		"u" + strings.Repeat("0123456789", 9) + "123456789", // sshd's %.100s limit
+		// account names that are words of the message grammar
+		"ID", "svcID", "CA", "serial", "port", "from", "ssh2", "user", "invalid", "by", "Accepted", "publickey", "for"}
 	PoolIPs = []string{"127.0.0.1", "0.0.0.0", "255.255.255.255", "10.1.2.3", "192.168.100.200", "::1", "2001:db8::1",
 		"2001:0db8:0000:0000:0000:ff00:0042:8329", "::ffff:192.0.2.1", "fe80::1%eth0", "fe80::a00:27ff:fe4e:66a1%enp0s3"}
 	PoolHosts = []string{"host.example.com", "localhost", "a-b.c-d.example", "xn--nxasmq6b.example", "UPPER.Example.ORG", "h",
